@@ -15,7 +15,7 @@ RULE = (
     "case = a program: a random interleaving of operations over 2-4 objects of the same or related classes - "
     "registers of two classes that share ONE Line object or one Field object (construct, read a line, write, mutate "
     "own data, mutate the list a read returned), register files (construct without arguments, read content, append / "
-    "remove elements, write), block and section files constructed without arguments. After each of its own "
+    "remove elements, MOVE an element from one file to another (remove there, append here), write), block and section files constructed without arguments. After each of its own "
     "operations every object's observables are recorded (register data and written text; file length, element data, "
     "written output). The same operations of EACH object alone are then replayed on fresh objects; the two "
     "observation sequences must be identical for every object (Driver C14 handler), and: files constructed without "
@@ -68,6 +68,10 @@ def obs_reg(r):
 
 def obs_file(f, binary=False):
     try:
+        fsup.capped(f.data, 500)
+    except RuntimeError:
+        return {"elems": "CYCLE: iteration of the container does not end", "written": "not attempted"}
+    try:
         elems = []
         for e in fsup.capped(f.data, 200):
             d = e.data
@@ -112,12 +116,34 @@ def apply(env, objs, step):
         kind, f = objs[oid]
         if step["cls"] in ("RA", "RB", "RC", "RD"):
             el = env[step["cls"]](data=[codec.dec_val(v) for v in step["data"]])
+            if "tag" in step:
+                objs.setdefault("__tags__", {})[step["tag"]] = el
         else:
             from cfinterface.components.defaultblock import DefaultBlock
             from cfinterface.components.defaultregister import DefaultRegister
             from cfinterface.components.defaultsection import DefaultSection
 
             el = {"RF": DefaultRegister, "BF": DefaultBlock, "SF": DefaultSection}[step["fcls"]](data=step["text"])
+        f.data.append(el)
+    elif op == "file_move_in":
+        # an element (appended earlier to file `src` with tag t) is moved to this file:
+        # src.data.remove(el); this.data.append(el).  In the isolated replay of this file alone the
+        # element is a fresh register with the same data; in the isolated replay of `src` it is only removed.
+        tags = objs.setdefault("__tags__", {})
+        el = tags.get(step["tag"])
+        mode = step.get("__mode__")
+        if mode == "src_only":
+            src = objs[step["src"]][1]
+            if el is not None and len(src.data) > 1:
+                src.data.remove(el)
+            return None
+        kind, f = objs[oid]
+        if mode == "dst_only" or el is None:
+            el = env[step["cls"]](data=[codec.dec_val(v) for v in step["data"]])
+        else:
+            src = objs[step["src"]][1]
+            if len(src.data) > 1:
+                src.data.remove(el)
         f.data.append(el)
     elif op == "file_remove_last":
         kind, f = objs[oid]
@@ -137,15 +163,26 @@ def run_program(steps, only=None):
     env = make_env()
     objs, out = {}, {}
     for st in steps:
+        st = dict(st)
         if only is not None and st["obj"] != only:
-            continue
+            if st.get("op") == "file_move_in" and st.get("src") == only:
+                st["__mode__"] = "src_only"  # the source file only loses the element
+            else:
+                continue
+        elif only is not None and st.get("op") == "file_move_in":
+            st["__mode__"] = "dst_only"  # the destination alone receives an equal fresh element
         try:
             o = apply(env, objs, st)
         except Exception as e:
             o = {"exc": type(e).__name__, "msg": str(e)[:100]}
+        if st.get("__mode__") == "src_only":
+            continue
         out.setdefault(st["obj"], []).append(o)
     # final observation of every object (after everybody's operations)
-    for oid, (kind, o) in objs.items():
+    for oid, val in objs.items():
+        if oid == "__tags__":
+            continue
+        kind, o = val
         if only is None or oid == only:
             try:
                 out.setdefault(oid, []).append(obs_reg(o) if kind == "reg" else obs_file(o))
@@ -268,6 +305,7 @@ def random_case(rng):
         k = rng.choice(["reg", "reg", "file", "file0"])
         kinds.append(k)
     created = set()
+    tagged = []
     for _ in range(rng.randrange(4, 22)):
         oid = rng.randrange(nobj)
         k = kinds[oid]
@@ -299,14 +337,22 @@ def random_case(rng):
         else:
             fcls = k.split(":")[1]
             r = rng.random()
-            if r < 0.45:
+            movable = [t for t in tagged if t["obj"] != oid and kinds[t["obj"]] == "file:RF"]
+            if fcls == "RF" and movable and rng.random() < 0.25:
+                t = rng.choice(movable)
+                tagged.remove(t)
+                steps.append({"obj": oid, "op": "file_move_in", "src": t["obj"], "tag": t["tag"], "cls": t["cls"], "data": t["data"]})
+            elif r < 0.45:
                 if fcls == "RF" and rng.random() < 0.7:
                     cls = rng.choice(["RA", "RB", "RC", "RD"])
-                    steps.append({"obj": oid, "op": "file_append", "cls": cls, "data": vals_for(cls, rng)})
+                    st = {"obj": oid, "op": "file_append", "cls": cls, "data": vals_for(cls, rng), "tag": len(steps)}
+                    steps.append(st)
+                    tagged.append(st)
                 else:
                     steps.append({"obj": oid, "op": "file_append", "cls": "dflt", "fcls": fcls, "text": rng.choice(["free\n", "x\n"])})
             elif r < 0.6:
                 steps.append({"obj": oid, "op": "file_remove_last"})
+                tagged[:] = [t for t in tagged if t["obj"] != oid]  # the last element may have been a tagged one
             else:
                 steps.append({"obj": oid, "op": "file_write"})
     return {"steps": steps, "defaults": rng.random() < 0.2}
